@@ -18,6 +18,9 @@ CHECKS = {
  "C13": ("model_checking", "explicit-state search over the subset lattice of real trace records with the real TraceAggregator.ingest as transition function (diamond property), plus every crash prefix against a reference verdict",
          "Traces are captured from the real runtime (single runs failing at each node kind, launches with a failing run, file and directory mode). Every prefix is judged against the documented verdict of the record set; every subset of up to 9 (thorough 12) records is reached through every possible last-ingested record, with and without an intermediate finalize, and all incoming edges must produce the same canonical verdict state - which, by induction on subset size, covers every permutation and every k-way file interleaving without sampling.",
          "traces longer than the bound are covered through lifecycle records plus chosen SER subsets; verdict for SER-only subsets (no crash can produce them) is not demanded", "3 C13"),
+ "C08": ("model_checking", "exhaustive enumeration of run_space specifications over a block-template menu against a lazy reference expander; cap promptness by tracemalloc peak and a child process under RLIMIT_AS",
+         "Every combination of inline-context templates (sorted/unsorted keys, empty lists, mismatched lengths), source templates (csv/json/yaml/ndjson, select, rename incl. collisions, missing file/column, source mode), block modes, second/third blocks (incl. duplicate keys) and combine modes, each with max_runs in {0,1,n-1,n,n+1,1000}, goes through the YAML loader and expand_run_space and must give the reference's ordered run list or rejection class. Specs expanding to 10^4..10^30 runs must be rejected with the max-runs error within a memory budget that excludes materialisation.",
+         "reference expander mc/ref/runspace.py; key-less blocks and a cap of 0 on an empty run space are outside the documented space; memory budget constant 200kB + 400B*(max_runs + list lengths)", "3 C08"),
 }
 NA = []
 def main():
